@@ -145,7 +145,8 @@ def parseString (e : Char) (l : List Char) : R (List Char × List Char) :=
     | some (a, b) => .ok (q :: a, b)
     | none => .error ((err "CxxTokenizer::parseString" "found no matching '") ++ [e] ++ "' to close string\n".toList)
 
-/-- `while ((p != pe) && (isdigit(*p) || *p == '\''))` with C++14 digit separators -/
+/-- `while ((p != pe) && (isdigit(*p) || *p == '\''))` with C++14 digit separators: after a `'` the next
+    character must be a digit (it is then consumed by the next iteration) -/
 def digitsSep : List Char → R (List Char × List Char)
   | [] => .ok ([], [])
   | c :: r =>
@@ -154,14 +155,12 @@ def digitsSep : List Char → R (List Char × List Char)
       | .ok (a, b) => .ok (c :: a, b)
       | .error e => .error e
     else if c = '\'' then
-      match r with
-      | [] => .error (err "CxxTokenizer::parseNumber" "invalid number")
-      | d :: r' =>
-        if isDigit d then
-          match digitsSep r' with
-          | .ok (a, b) => .ok (c :: d :: a, b)
-          | .error e => .error e
-        else .error (errC "CxxTokenizer::parseNumber" "expected digit, read '" d)
+      if r.isEmpty then .error (err "CxxTokenizer::parseNumber" "invalid number")
+      else if isDigit (peek r) then
+        match digitsSep r with
+        | .ok (a, b) => .ok (c :: a, b)
+        | .error e => .error e
+      else .error (errC "CxxTokenizer::parseNumber" "expected digit, read '" (peek r))
     else .ok ([], c :: r)
 
 /-- binary digits: `while (p != pe && isdigit(*p)) { throw_if(!is_binary(*p)); ++p; }` -/
@@ -375,9 +374,21 @@ def rawDelimiter : List Char → Option (List Char × List Char)
       | some (a, b) => some (c :: a, b)
       | none => none
 
-def ppKeywords : List String :=
-  ["define", "undef", "include", "line", "error", "if", "ifdef", "ifndef", "elif", "else", "endif",
-   "pragma", "warning"]
+/-- the preprocessor keywords (as character lists: no `String` in the model) -/
+def ppKeywords : List (List Char) :=
+  [['d', 'e', 'f', 'i', 'n', 'e'],
+   ['u', 'n', 'd', 'e', 'f'],
+   ['i', 'n', 'c', 'l', 'u', 'd', 'e'],
+   ['l', 'i', 'n', 'e'],
+   ['e', 'r', 'r', 'o', 'r'],
+   ['i', 'f'],
+   ['i', 'f', 'd', 'e', 'f'],
+   ['i', 'f', 'n', 'd', 'e', 'f'],
+   ['e', 'l', 'i', 'f'],
+   ['e', 'l', 's', 'e'],
+   ['e', 'n', 'd', 'i', 'f'],
+   ['p', 'r', 'a', 'g', 'm', 'a'],
+   ['w', 'a', 'r', 'n', 'i', 'n', 'g']]
 
 /-! ## comments -/
 
@@ -568,7 +579,7 @@ def parsePreprocessorDirective (op : Opts) (n : Nat) (s : St) (o : Nat) (l : Lis
   | c :: _ =>
     let (key, r2) := takeWord op r
     if key.isEmpty then .error (errC fn "unexpected token '" c)
-    else if !ppKeywords.contains (String.ofList key) then
+    else if !ppKeywords.contains key then
       .error (err fn "invalid preprocessor keyword '" ++ key ++ ['\''])
     else
       -- `parseStandardLine(o, p, p, pe, n)`: the beginning of the line is now `p`
